@@ -1170,6 +1170,10 @@ class Delegate(TraitType):
     ):
         """ Creates a Delegate trait.
         """
+        # The listener pattern (see has_traits.get_delegate_pattern) needs the
+        # prefix as written, including a trailing '*'.
+        metadata["_prefix"] = prefix
+
         if prefix == "":
             prefix_type = 0
         elif prefix[-1:] != "*":
@@ -1182,7 +1186,6 @@ class Delegate(TraitType):
                 prefix_type = 3
 
         metadata["_delegate"] = delegate
-        metadata["_prefix"] = prefix
         metadata["_listenable"] = listenable
 
         super().__init__(**metadata)
